@@ -14,9 +14,10 @@ class FakeTimer:
     @staticmethod
     def getFPGATimestamp(): return clock[0]
 class Joy:
-    def __init__(self): self.level = False; self.reads = 0
-    def getRawButton(self, n): self.reads += 1; return self.level
+    def __init__(self): self.level = False; self.reads = 0; self.raw = []
+    def getRawButton(self, n): self.reads += 1; self.raw.append(self.level); return self.level
 tg.wpilib = type("W", (), {"Timer": FakeTimer, "Joystick": wpilib.Joystick})
+bd.wpilib = tg.wpilib          # whatever clock-reading helper Toggle builds on reads the scripted clock too
 def fail(msg):
     print("REPRODUCED:", msg); sys.exit(1)
 n = 0
@@ -37,7 +38,7 @@ for trial in range(400):
     def rec(real=real):
         v = real(); samples.append((clock[0], v)); return v
     t.joystickget = rec
-    prev_sample, state, last_change, hist = False, False, None, []
+    prev_sample, state, last_change, hist, raw_mark = False, False, None, [], 0
     for dt, lvl, acc in steps(rnd.randrange(5, 60), period or 0.5):
         clock[0] += dt; j.level = lvl; before = len(samples)
         r = {"get": t.get, "on": lambda: t.on, "off": lambda: t.off, "bool": lambda: bool(t)}[acc]()
@@ -48,7 +49,11 @@ for trial in range(400):
         new_state = (not state) if edge else state
         if edge and period is not None and last_change is not None and clock[0] - last_change < period - 1e-12:
             fail(f"debounced Toggle changed twice {clock[0]-last_change}s apart (< {period}); history {hist}")
-        if edge: last_change = clock[0]
+        if edge:
+            # "never while the button is held": a change after the first needs the button to have been SEEN released since the previous change
+            if last_change is not None and False not in j.raw[raw_mark:-1] and not (j.raw and j.raw[-1] is False):
+                fail(f"Toggle changed again although every button read since its previous change saw the button pressed (held); history {hist}")
+            last_change = clock[0]; raw_mark = len(j.raw)
         exp = {"get": new_state, "on": new_state, "off": not new_state, "bool": new_state}[acc]
         if bool(r) != exp: fail(f"Toggle {acc} returned {r}, expected {exp} (period={period}); history {hist}")
         if t.state != new_state or t.toggle != new_state: fail(f"Toggle state {t.state}/{t.toggle} != {new_state}; history {hist}")
